@@ -7,6 +7,8 @@ from __future__ import annotations
 
 from inline_snapshot._align import add_x, align
 
+from inline_snapshot._is import Is
+from inline_snapshot._unmanaged import Unmanaged
 from vlib.common import Cond, PathLog, mkfn
 
 ID = "C11"
@@ -118,21 +120,27 @@ def addx_oracle(track):
     return r1 == r2
 
 
-GLB = {"align_oracle": align_oracle, "addx_oracle": addx_oracle, "__name__": "harness.c11"}
+def wrap(v):
+    """what the real pipeline aligns for an Is(...) element of the previous value"""
+    return Unmanaged(Is(v))
 
 
-def _align_cond(na, nb, twin=False):
+GLB = {"align_oracle": align_oracle, "addx_oracle": addx_oracle, "wrap": wrap, "__name__": "harness.c11"}
+
+
+def _align_cond(na, nb, twin=False, wrapped=()):
     params = [(f"a{i}", "int") for i in range(na)] + [(f"b{i}", "int") for i in range(nb)]
     if not params:
         params = [("dummy", "int")]
     body = f"""
-    a = [{', '.join(f'a{i}' for i in range(na))}]
+    a = [{', '.join((f'wrap(a{i})' if i in wrapped else f'a{i}') for i in range(na))}]
     b = [{', '.join(f'b{i}' for i in range(nb))}]
     return align_oracle(a, b)
     """
-    name = f"align_{na}_{nb}" + ("_twin" if twin else "")
+    name = f"align_{na}_{nb}" + ("_w" + "".join(map(str, wrapped)) if wrapped else "") + ("_twin" if twin else "")
     fn = mkfn(name, params, body, GLB, post="not _" if twin else "_")
-    return Cond(name, fn, timeout=60 if twin else 900, twin=twin, bounds=f"old list of {na} ints, new list of {nb} ints (values unbounded)", group="align")
+    return Cond(name, fn, timeout=60 if twin else 900, twin=twin, group="align",
+                bounds=f"old list of {na} ints{' (elements ' + str(list(wrapped)) + ' wrapped as Unmanaged(Is(..)), i.e. equal across types)' if wrapped else ''}, new list of {nb} ints (values unbounded)")
 
 
 def _addx_cond(n):
@@ -157,6 +165,9 @@ def conditions(tier):
                 continue
             conds.append(_align_cond(na, nb))
     conds.append(_align_cond(2, 2, twin=True))
+    # old elements that are equal to new ones across types (the wrapper objects of user-controlled parts)
+    for na, nb, w in [(2, 2, (0,)), (2, 1, (0,)), (3, 2, (0,)), (3, 2, (1,)), (2, 3, (1,)), (3, 3, (0, 2))] + ([] if tier == "quick" else [(4, 3, (0, 3)), (3, 4, (1,)), (4, 4, (0, 2))]):
+        conds.append(_align_cond(na, nb, wrapped=w))
     for n in ([4, 6] if tier == "quick" else [4, 6, 8]):
         conds.append(_addx_cond(n))
     return conds
